@@ -78,11 +78,11 @@ def enclosing_fn_in_text(lines, idx):
     return None, False
 
 
-def run_unit(unit_name, repo='/repo', workdir=None, rlimit=None, extra_args=None, mutate=None, keep=False):
+def run_unit(unit_name, repo='/repo', workdir=None, rlimit=None, extra_args=None, mutate=None, keep=False, vacuity=False):
     auto_items = []
     last = None
     for _round in range(6):
-        last = _run_unit_once(unit_name, repo, workdir, rlimit, extra_args, mutate, keep, auto_items)
+        last = _run_unit_once(unit_name, repo, workdir, rlimit, extra_args, mutate, keep, auto_items, vacuity)
         if last.status != 'inconclusive' or not last.missing_names:
             break
         unit_cfg = extract.load_unit(os.path.join(VERIF, 'units', unit_name))
@@ -102,13 +102,13 @@ MISSING_ASSOC_RE = re.compile(r"no (?:method|function or associated item|associa
 UNDECLARED_RE = re.compile(r"use of undeclared type `([A-Za-z_][A-Za-z0-9_]*)`")
 
 
-def _run_unit_once(unit_name, repo, workdir, rlimit, extra_args, mutate, keep, auto_items):
+def _run_unit_once(unit_name, repo, workdir, rlimit, extra_args, mutate, keep, auto_items, vacuity=False):
     r = UnitRun(unit_name)
     r.missing_names = []
     unit_dir = os.path.join(VERIF, 'units', unit_name)
     t0 = time.time()
     try:
-        g = extract.build(unit_dir, repo, mutate=mutate, auto_items=auto_items)
+        g = extract.build(unit_dir, repo, mutate=mutate, auto_items=auto_items, vacuity=vacuity)
     except extract.LostAnchor as e:
         r.reason = 'lost-anchor: %s' % e
         return r
@@ -266,15 +266,26 @@ def match_any(oid, patterns):
     return any(fnmatch.fnmatchcase(oid, p) for p in patterns)
 
 
+def vacuity_check(unit_name, repo='/repo'):
+    """Every contracted function must FAIL `ensures false`; one that still verifies has a contradictory
+    precondition (or an unreachable body).  Returns (ok, list of functions that verified `false`)."""
+    r = run_unit(unit_name, repo, vacuity=True)
+    if r.status == 'inconclusive':
+        return None, [r.reason]
+    bad = [o['id'] for o in r.obligations if o['id'].startswith('vacuity.') and o['status'] != 'refuted']
+    return (not bad), bad
+
+
 if __name__ == '__main__':
     import argparse
     ap = argparse.ArgumentParser()
     ap.add_argument('unit')
     ap.add_argument('--repo', default='/repo')
     ap.add_argument('--keep', action='store_true')
+    ap.add_argument('--vacuity', action='store_true')
     a = ap.parse_args()
     wd = tempfile.mkdtemp(prefix='verif-verus-') if a.keep else None
-    r = run_unit(a.unit, a.repo, workdir=wd, keep=a.keep)
+    r = run_unit(a.unit, a.repo, workdir=wd, keep=a.keep, vacuity=a.vacuity)
     print('unit', a.unit, 'status', r.status, r.reason, 'wall %.1fs smt %dms' % (r.wall_s, r.smt_ms))
     if a.keep:
         print('generated:', r.gen_path)
